@@ -100,6 +100,7 @@ class dtype:
         if isinstance(spec, dtype):
             return spec
         self = object.__new__(cls)
+        self.order = "<"  # byte order of multi-byte scalars: values are stored order-free, bytes are not
         self.code = None
         self.shape = ()
         self.fields_list = None
@@ -158,8 +159,7 @@ class dtype:
                 return
             raise UnsupportedInShim(f"dtype string {s!r}")
         e1, shp, e2, kind, size = m.groups()
-        if ">" in (e1, e2):
-            raise UnsupportedInShim("big-endian dtype")
+        big = ">" in (e1, e2)
         if kind == "O":
             code = "O"
         elif kind in "Sa":
@@ -175,10 +175,13 @@ class dtype:
                 code = kind + (size or "8")
         if code not in _SCALAR_SIZES:
             raise UnsupportedInShim(f"dtype string {s!r}")
+        if big and _SCALAR_SIZES[code] > 1 and code[0] in "fiu":
+            self.order = ">"
         if shp:
             dims = tuple(int(x) for x in re.findall(r"\d+", shp))
             if shp.startswith("(") or dims != (1,):
-                base = dtype.__new__(dtype, "<" + code)
+                base = dtype.__new__(dtype, self.order + code)
+                self.order = "<"
                 self.code = None
                 self.shape = dims
                 self._base = base
@@ -234,7 +237,7 @@ class dtype:
 
     @property
     def str(self) -> str:
-        return ("|" if (self.code or "V")[0] == "S" else "<") + (self.code or "V")
+        return ("|" if (self.code or "V")[0] == "S" else self.order) + (self.code or "V")
 
     @property
     def type(self):
@@ -242,6 +245,16 @@ class dtype:
             if t._code == self.code:
                 return t
         return generic
+
+    def leaf_orders(self) -> List[str]:
+        if self.fields_list is not None:
+            out: List[str] = []
+            for _, d, _, _ in self.fields_list:
+                out.extend(d.leaf_orders())
+            return out
+        if self._base is not None:
+            return [self._base.order] * self.nleaves
+        return [self.order]
 
     def leaf_codes(self) -> List[str]:
         if self.fields_list is not None:
@@ -271,7 +284,25 @@ class dtype:
             return ("V", tuple((f[0], f[1]._key()) for f in self.fields_list))
         if self._base is not None:
             return ("S", self.shape, self._base._key())
-        return ("s", self.code)
+        return ("s", self.code, self.order)
+
+    def newbyteorder(self, new_order="S"):
+        if self.code is None or self.code[0] not in "fiu" or _SCALAR_SIZES[self.code] == 1:
+            return self
+        o = {"S": ">" if self.order == "<" else "<", "<": "<", ">": ">", "=": "<", "|": self.order, "L": "<", "B": ">", "N": "<"}.get(new_order)
+        if o is None:
+            raise ValueError(f"{new_order} is an unrecognized byteorder")
+        return dtype.__new__(dtype, o + self.code)
+
+    @property
+    def byteorder(self) -> str:
+        if self.code is None or self.code[0] not in "fiu" or _SCALAR_SIZES[self.code] == 1:
+            return "|"
+        return "=" if self.order == "<" else ">"
+
+    @property
+    def isnative(self) -> bool:
+        return self.order == "<" and (self._base is None or self._base.order == "<")
 
     def __eq__(self, o):
         try:
@@ -291,7 +322,7 @@ class dtype:
             return "dtype([" + ", ".join(f"({f[0]!r}, {f[1]!r})" for f in self.fields_list) + "])"
         if self._base is not None:
             return f"dtype(('<{self._base.code}', {self.shape}))"
-        return f"dtype('<{self.code}')"
+        return f"dtype('{self.order}{self.code}')"
 
     __str__ = __repr__
 
@@ -300,6 +331,7 @@ def _subarray(base: dtype, shp: tuple) -> dtype:
     if base._base is not None or base.fields_list is not None:
         raise UnsupportedInShim("sub-array of non-scalar dtype")
     d = object.__new__(dtype)
+    d.order = "<"
     d.code = None
     d.shape = tuple(shp)
     d.fields_list = None
@@ -914,13 +946,17 @@ class ndarray:
         out: list = []
         if self._structured:
             codes = self.dtype.leaf_codes()
+            orders = self.dtype.leaf_orders()
             for p in self._idx:
                 for j, c in enumerate(codes):
-                    out.extend(leaf_bytes(self._buf[p + j], c))
+                    b = leaf_bytes(self._buf[p + j], c)
+                    out.extend(reversed(b) if orders[j] == ">" else b)
         else:
             c = self.dtype.code
+            big = self.dtype.order == ">"
             for p in self._idx:
-                out.extend(leaf_bytes(self._buf[p], c))
+                b = leaf_bytes(self._buf[p], c)
+                out.extend(reversed(b) if big else b)
         return mkbytes(out)
 
     def transpose(self, *axes) -> "ndarray":
@@ -1467,12 +1503,14 @@ def frombuffer(buffer, dtype=float, count=-1, offset=0) -> ndarray:
         if len(items) < n * isz:
             raise ValueError("buffer is smaller than requested size")
     codes = dt.leaf_codes()
+    orders = dt.leaf_orders()
     buf = []
     pos = 0
     for _ in range(n):
-        for c in codes:
+        for c, o in zip(codes, orders):
             k = _SCALAR_SIZES[c]
-            buf.append(leaf_from_bytes(items[pos:pos + k], c))
+            chunk = items[pos:pos + k]
+            buf.append(leaf_from_bytes(list(reversed(chunk)) if o == ">" else chunk, c))
             pos += k
     if dt.fields_list is not None:
         nl = dt.nleaves
